@@ -73,4 +73,42 @@ PROPS = {
         "exhaustive_parts": "per listed configuration and reference schedule the (peer,k) and single-withheld-frame spaces are enumerated completely; configurations and schedules are a finite sample",
         "assumptions": COMMON_ASSUME + ["a vanished peer is modelled as a node whose outgoing frames are dropped after the k-th"],
     },
+    "C05": {
+        "module": "core", "pkg": "./checks", "level": "exploration",
+        "jobs": [
+            {"test": "TestC05B", "quick": 500, "thorough": 14000, "shards_thorough": 14},
+        ],
+        "rule": "Level B: real bls.TBLS / ps.TPS backends driven through Init/OnMsg/KeyGen over the simulated network with an ideal broadcast; one "
+                "participant is a puppet whose outgoing traffic is rewritten by a strategy drawn from a catalogue of 19 deviations (off-polynomial / "
+                "random share to a victim set, reveal != commitment, consistent off-polynomial key, malformed / structurally altered share, reveal, "
+                "commit, duplicates with different content, withheld share/commit/reveal, reveal before commit, shares last, copy-cat, byte mutation) "
+                "x victim set x (n in 3..4 [thorough 5], t in 2..n incl. t=n) x schedule; BLS and PS (L in 1..2). Oracle: every honest party returns by "
+                "the virtual deadline without panic; those that succeed report identical public material, their published key matches their share and "
+                "every t-subset of them signs validly under the reported key (PS: blind-sign-unblind-prove-verify); no honest reveal is emitted before "
+                "commitments of all n-1 others were handed to that party. Non-trivial = a deviating message was handed to an honest backend or a message "
+                "was withheld. Distinct = hash of the whole case.",
+        "assumptions": COMMON_ASSUME + ["ideal broadcast at this level (different values to different parties are the reliable-broadcast layer's business, C02)"],
+    },
+    "C10": {
+        "module": "core", "pkg": "./checks", "level": "exploration",
+        "jobs": [
+            {"test": "TestC10Hostile", "quick": 1, "thorough": 1, "shards_thorough": 14},
+            {"test": "TestC10Loud", "quick": 800, "thorough": 30000, "shards_thorough": 14},
+            {"test": "TestC10Silent", "quick": 800, "thorough": 30000, "shards_thorough": 14},
+            {"test": "TestC10Crypto", "quick": 6000, "thorough": 400000, "shards_thorough": 14},
+            {"test": "TestC05B", "quick": 300, "thorough": 6000, "shards_thorough": 14},
+            {"test": "TestC03R", "quick": 10000, "thorough": 200000, "shards_thorough": 14},
+        ],
+        "rule": "Structure-aware hostile input. T1/T2: frames captured from a fault-free run of the configuration under test (loud / silent; BLS, PS, "
+                "scripted backend; KeyGen, Sign) are truncated, extended, bit-flipped, spliced, replaced by hostile constants sitting on the decoders' "
+                "length checks, given other types / topics (live, other live, unknown, empty, short, long, nil) / sources (participant, configured "
+                "outsider, unknown; never the receiver itself) and injected in a generated session state (idle, after k deliveries, finished). Oracle: "
+                "HandleMessage returns without panic and without blocking; every call returns by the deadline; input that must be ignored (unconfigured "
+                "source, MPC traffic of a non-participant, foreign topic, idle/finished state) leaves the running honest session successful; a fresh "
+                "session afterwards succeeds. TestC10Hostile sweeps all hostile constants deterministically. T4 (rbc.Receiver) = TestC03R's Byzantine "
+                "scripts incl. short digests; T5 (DKG handlers) = TestC05B's malformed / structural strategies; T6: TPS.Sign, ps/bls Verifier.Init/Verify, "
+                "AggregateSignatures, Prover.UnBlind with byte-level and ASN.1-structure-level mutations of valid objects. Non-trivial = the input passed "
+                "the first validation step of its entry point (live topic and minimal length / outer ASN.1 decoder). Distinct = hash of case / input.",
+        "assumptions": COMMON_ASSUME + ["explicit panics on local API misuse (rule 2 of DESIGN 2.10) are not inputs from the network and are not generated"],
+    },
 }
